@@ -1245,6 +1245,7 @@ def m_is_macro_amp(I, callee, args, st, n, fidx):
     c = st.cursors[cid]
     strm = stream(I, st, cid)
     t = Term("is_macro_amp", (Const("str", strm), Const("int", c.pos)))
+    I.emit(st, "la_scan", n, scanner="is_macro_amp", result=t, pos=c.pos, unbounded=True)
     jump(st, c)   # the iterator passed in is consumed
     return val(Tup([Term("proj0", (t,), "bool"), Term("proj1", (t,), "u32")]), st)
 
